@@ -27,7 +27,7 @@ from corr.harness import coq_build, run_model, dec, exc_name
 
 TB = [
     "XlsxWriter 3.2.9 worksheet.write/write_column dispatch (None, empty string, =formula, {=array}, url prefixes, 32767 truncation, row/column limits, datetime conversion) is transcribed in model/Xlsx.v (xl_cell, store) and tied by this correspondence, not verified against XlsxWriter",
-    "XlsxWriter writes numbers as '%.16G' and reads back are done by float(text): outside the model (numbers are exact payloads there); observed by the oracle",
+    "XlsxWriter writes a number as the text '%.16G' % value: outside the model (numbers are exact payloads there); the check applies this formatting to the model's sheet numbers before comparing them with the real sheet, and the oracle compares cache text and cell through float(text) exactly",
     "date.toordinal (proleptic Gregorian ordinal) computed by CPython for the model's date inputs",
     "minimal .xlsx reader in checks/c08.py (zipfile + lxml: workbook.xml -> Sheet1 -> sheet xml, sharedStrings with _xHHHH_ unescaping, inline strings, formulas)",
     "series identity (is) in data_point_offset/series_index modelled by position: a series object is appended once (add_series always creates a new object)",
@@ -360,6 +360,65 @@ def impl_hist(case):
     return states, reopened
 
 
+_CORPUS = None
+
+
+def corpus_charts():
+    """(file, slide index, shape index, kind, date1904) of every chart of the decks under /repo."""
+    global _CORPUS
+    if _CORPUS is not None:
+        return _CORPUS
+    import glob
+    import os
+    from pptx import Presentation
+    from pptx.enum.chart import XL_CHART_TYPE as T
+
+    xy = (T.XY_SCATTER, T.XY_SCATTER_LINES, T.XY_SCATTER_LINES_NO_MARKERS, T.XY_SCATTER_SMOOTH, T.XY_SCATTER_SMOOTH_NO_MARKERS)
+    bub = (T.BUBBLE, T.BUBBLE_THREE_D_EFFECT)
+    out = []
+    repo = os.environ.get("VERIF_REPO", "/repo")
+    for f in sorted(glob.glob(os.path.join(repo, "**", "*.pptx"), recursive=True)):
+        try:
+            prs = Presentation(f)
+        except Exception:  # noqa
+            continue
+        for si, sl in enumerate(prs.slides):
+            for hi, sh in enumerate(sl.shapes):
+                if getattr(sh, "has_chart", False) and sh.has_chart:
+                    try:
+                        ct = sh.chart.chart_type
+                    except Exception:  # noqa
+                        continue
+                    kind = "xy" if ct in xy else "bub" if ct in bub else "cat"
+                    out.append((os.path.relpath(f, repo), si, hi, kind, bool(sh.chart._chartSpace.date_1904)))
+    _CORPUS = out
+    return out
+
+
+def impl_corpus(case):
+    """replace_data on a chart of a PowerPoint-authored deck; state observed afterwards."""
+    import os
+    from pptx import Presentation
+
+    repo = os.environ.get("VERIF_REPO", "/repo")
+    prs = Presentation(os.path.join(repo, case["file"]))
+    chart = prs.slides[case["slide"]].shapes[case["shape"]].chart
+    try:
+        with warnings.catch_warnings():
+            warnings.simplefilter("ignore")
+            chart.replace_data(build(case["data"]))
+    except Exception as e:  # noqa
+        return "err:" + exc_name(e)
+    part = chart.part
+    xl = [r.target_part for r in part.rels.values() if not r.is_external and r.target_part.partname.endswith(".xlsx")]
+    return {"parts": len(xl), "xml": read_chart_xml(chart._chartSpace), "sheet": read_xlsx(part.chart_workbook.xlsx_part.blob)}
+
+
+def _ser_key(d):
+    pr = parse_ref(d["tx"]["ref"]) if "tx" in d else None
+    return pr or (0, 0, 0, 0)
+
+
 # ------------------------------------------------------------------ the oracle (independent of the model)
 _REF = re.compile(r"Sheet1!\$([^$]*)\$([0-9]+)(?::\$([^$]*)\$([0-9]+))?")
 
@@ -591,6 +650,8 @@ def _mcell(t):
 
 
 def model_xml(t):
+    if t in ("c", "x"):
+        return []
     parts = t.split(";")
     kind, sers = parts[0], parts[1:]
     out = []
@@ -677,7 +738,14 @@ def diff_sheet(ms, isheet, approx_keys=()):
             continue
         if a == b:
             continue
-        if a and b and a[0] == "N" and b[0] == "N" and a[1].denominator != 1 and abs(a[1] - b[1]) < Fraction(1, 10 ** 9):
+        if a and b and a[0] == "N" and b[0] == "N" and k not in approx_keys:
+            # XlsxWriter stores a number as the text '%.16G' (see TB): apply it to the model's exact value
+            try:
+                if Fraction(*float("%.16G" % float(a[1])).as_integer_ratio()) == b[1]:
+                    continue
+            except (OverflowError, ValueError):
+                pass
+        if k in approx_keys and a and b and a[0] == "N" and b[0] == "N" and abs(a[1] - b[1]) < Fraction(1, 10 ** 9):
             continue  # datetime with a time of day: float arithmetic in XlsxWriter (see ASSUME)
         return "cell %s%d model=%r impl=%r" % (_letters(k[1] + 1), k[0] + 1, a, b)
     return None
@@ -807,21 +875,26 @@ def gen_cases(tier, rng):
             d = gen_cat(rng, nser=n, depth=depth, maxlen=3 if n > 100 else 5)
             cases.append({"op": "one", "data": d, "klass": "cat-boundary", "agree": n <= 60})
     # C. random category charts: ragged trees, dates, numbers, None, unequal lengths (no empty series)
-    for i in range(250 if quick else 4000):
+    for i in range(1500 if quick else 12000):
         cases.append({"op": "one", "data": gen_cat(rng), "klass": "cat-random", "agree": True})
     # D. XY / bubble with unequal lengths
-    for i in range(200 if quick else 3000):
+    for i in range(1100 if quick else 9000):
         kind = "xy" if i % 2 == 0 else "bub"
         cases.append({"op": "one", "data": gen_xy(rng, kind), "klass": kind + "-random", "agree": True})
     for n in ([40, 120] if quick else [40, 120, 400, 1000]):
         for kind in ("xy", "bub"):
             cases.append({"op": "one", "data": gen_xy(rng, kind, nser=n, maxlen=4), "klass": kind + "-many", "agree": n <= 120})
     # E. histories through a real presentation: new chart then replace_data with differently shaped data
-    for i in range(50 if quick else 600):
+    for i in range(300 if quick else 2400):
         kind = ["cat", "cat", "xy", "bub"][i % 4]
         mk = (lambda: gen_cat(rng, nser=rng.randint(1, 5))) if kind == "cat" else (lambda: gen_xy(rng, kind, nser=rng.randint(1, 5)))
         ops = [["rep", mk()] for _ in range(rng.randint(1, 3))]
         cases.append({"op": "hist", "data": mk(), "ops": ops, "salt": i, "reopen": i % 5 == 0, "klass": "hist-" + kind})
+    # E2. replace_data on the charts of the PowerPoint-authored decks under /repo
+    cc = corpus_charts()
+    for i, (f, si, hi, kind, d19) in enumerate(cc if not quick else cc[::3]):
+        d = gen_cat(rng, nser=rng.randint(1, 5)) if kind == "cat" else gen_xy(rng, kind, nser=rng.randint(1, 5))
+        cases.append({"op": "corpus", "file": f, "slide": si, "shape": hi, "data": d, "date1904": d19, "klass": "corpus-" + kind})
     # F. edge classes of the property's domain (each is reported under its own signature when it fails)
     for i in range(12 if quick else 120):   # empty series (add_series default values=())
         d = gen_cat(rng, nser=rng.randint(1, 4), p_empty=0.5) if i % 3 == 0 else gen_xy(rng, ["xy", "bub"][i % 2], nser=rng.randint(1, 4), p_empty=0.5)
@@ -866,7 +939,8 @@ def gen_cases(tier, rng):
         elif r < 0.5:
             d = {"kind": "cat", "cats": [], "series": gen_series(rng, rng.randint(0, 3), 4)}
         elif r < 0.75:
-            labs = [["n", safe_number(rng)]] + [rng.choice([None, ["s", safe_string(rng)], ["n", safe_number(rng)]]) for _ in range(rng.randint(1, 4))]
+            # plain words only: text in a numeric cache is written unescaped (C05's subject, not C08's)
+            labs = [["n", safe_number(rng)]] + [rng.choice([None, ["s", rng.choice(["Q1", "East", "a b", "x=y", "1.5"])], ["n", safe_number(rng)]]) for _ in range(rng.randint(1, 4))]
             d = {"kind": "cat", "cats": [[l, []] for l in labs], "series": gen_series(rng, 1, 3)}
         else:
             labs = [["s", safe_string(rng)]] + [rng.choice([None, ["s", ""], ["n", safe_number(rng)]]) for _ in range(rng.randint(1, 4))]
@@ -879,7 +953,7 @@ def gen_cases(tier, rng):
 def case_fields(case):
     if case["op"] == "col":
         return ["col", str(case["n"])]
-    if case["op"] == "one":
+    if case["op"] in ("one", "corpus"):
         return ["one", "1" if case.get("agree", True) else "0", "1" if case.get("date1904") else "0"] + data_tokens(case["data"])
     f = ["hist"] + data_tokens(case["data"])
     for o in case["ops"]:
@@ -944,9 +1018,16 @@ def check_state(ck, case, label, data, date1904, mstate, istate, stats, first_on
     mx = mstate["xml"]
     if first_only and not isinstance(mx, str):
         mx = mx[:1]
-    d = diff_xml(mx, ix) or diff_sheet(mstate["sheet"], ish)
+    approx = set()
+    if data["kind"] == "cat":
+        for i, c in enumerate(data["cats"]):
+            if c[0] is not None and c[0][0] == "t" and c[0][4:8] != [0, 0, 0, 0] and not c[1]:
+                approx.add((i + 1, 0))
+    d = diff_xml(mx, ix) or diff_sheet(mstate["sheet"], ish, approx)
     if d is None and mstate.get("agree") in ("True", "False") and not isinstance(ix, str) and not isinstance(ish, str):
-        if not has_url_like(data) and (mstate["agree"] == "True") != (not fails):
+        # a new pie chart carries only series 0 in its XML: the model's verdict covers all series
+        partial = first_only and len(data["series"]) > 1
+        if not has_url_like(data) and not partial and (mstate["agree"] == "True") != (not fails):
             d = "model evaluates the property to %s, oracle found %d failures" % (mstate["agree"], len(fails))
     return concrete, d
 
@@ -981,20 +1062,34 @@ def date_flags(case):
     return flags
 
 
+def model_exe(tmp):
+    """The extracted runner concatenates whole outputs with the non-tail-recursive list
+    append of the Coq standard library: give it a large stack for charts with hundreds of series."""
+    import os
+    from corr.harness import COQ
+
+    exe = os.path.join(COQ, "extract", "run_c08")
+    wrapper = os.path.join(tmp, "run_c08_bigstack")
+    with open(wrapper, "w") as f:
+        f.write("#!/bin/sh\nulimit -s unlimited 2>/dev/null || ulimit -s 4000000 2>/dev/null || ulimit -s 1000000 2>/dev/null\nexec %s\n" % exe)
+    os.chmod(wrapper, 0o755)
+    return wrapper
+
+
 def run(ck, tier, rng):
     ck.build = coq_build("C08")
     tmp = tempfile.mkdtemp(prefix="c08-")
     try:
-        return _run(ck, tier, rng)
+        return _run(ck, tier, rng, tmp)
     finally:
         shutil.rmtree(tmp, ignore_errors=True)
 
 
-def _run(ck, tier, rng):
+def _run(ck, tier, rng, tmp=None):
     cases = gen_cases(tier, rng)
     model_out = [None] * len(cases)
     if ck.build.ok:
-        model_out = run_model("C08", [case_fields(c) for c in cases])
+        model_out = run_model("C08", [case_fields(c) for c in cases], exe=model_exe(tmp) if tmp else None)
     stats = {"oracle_failures": {}, "diffs": 0, "attributed_diffs": 0}
     first_diff = None
     shown = {}
@@ -1024,6 +1119,22 @@ def _run(ck, tier, rng):
             mst = parse_model_one(mo) if mo is not None else None
             concrete, d = check_state(ck, case, "new", case["data"], False, mst, ist, stats,
                                       first_only=is_pie(case["data"], len(case["data"]["series"])))
+        elif case["op"] == "corpus":
+            ist = impl_corpus(case)
+            mst = parse_model_one(mo) if mo is not None else None
+            if isinstance(ist, str):
+                if mst is not None and not (isinstance(mst["xml"], str) or isinstance(mst["sheet"], str)):
+                    d = "replace_data on %s slide %d raised %s, model ok" % (case["file"], case["slide"], ist)
+            else:
+                # series matched by their name cell (document order of multi-plot charts is not series order)
+                ist["xml"] = sorted(ist["xml"], key=_ser_key)
+                if mst is not None and not isinstance(mst["xml"], str):
+                    mst["xml"] = sorted(mst["xml"], key=_ser_key)
+                concrete, d = check_state(ck, case, "after replace_data", case["data"], bool(case.get("date1904")), mst, ist, stats)
+                if ist["parts"] != 1:
+                    concrete = True
+                    ck.violation("workbook-part-count", "chart part relates to %d embedded workbooks after replace_data" % ist["parts"],
+                                 {"entry_point": "Chart.replace_data", "input": case})
         else:
             states, reopened = impl_hist(case)
             msts = parse_model_hist(mo) if mo is not None else None
@@ -1062,6 +1173,8 @@ def _run(ck, tier, rng):
         if d is not None:
             if concrete:
                 stats["attributed_diffs"] += 1
+                if stats["attributed_diffs"] <= 3:
+                    ck.notes.append("diff attributed to the oracle failure of the same case (%s): %s" % (klass, d[:200]))
             else:
                 stats["diffs"] += 1
                 if first_diff is None:
@@ -1076,8 +1189,8 @@ def _run(ck, tier, rng):
              "input": case, "diff": d}, concrete=False)
     ck.broken_build(oracle_found_concrete=any(v["concrete"] for v in ck.violations))
     return ck.finish(
-        rule="_column_reference on every n in 1..16384 and 10 values outside; category chart data with series counts crossing Z/AA, ZZ/AAA (24..27, 52, 53, 700, 703%s) x category depth 1..4 (ragged branching, string/number/date labels, None labels and values, unequal series lengths); XY and bubble data with 0..6 (and 40..%d) series of unequal lengths; new chart + 1..3 replace_data with differently shaped data through a real presentation (every 5th saved and re-opened); edge classes (empty series, 17-digit numbers, formula/url-like/over-long strings, datetime labels, date1904 charts, depth 26/27) and a malformed stream (non-uniform depth, no categories, mixed label types). non-trivial = n in 1..16384 for column references; otherwise the (last) data has >= 2 series and >= 2 points, or >= 2 category levels and a point" % (
-            "" if tier == "quick" else ", 1400", 120 if tier == "quick" else 1000),
+        rule="_column_reference on every n in 1..16384 and 10 values outside; category chart data with series counts crossing Z/AA, ZZ/AAA (24..27, 52, 53, 700, 703%s) x category depth 1..4 (ragged branching, string/number/date labels, None labels and values, unequal series lengths); XY and bubble data with 0..6 (and 40..%d) series of unequal lengths; new chart + 1..3 replace_data with differently shaped data through a real presentation (every 5th saved and re-opened); replace_data on the charts of the decks under /repo (%s); edge classes (empty series, 17-digit numbers, formula/url-like/over-long strings, datetime labels, date1904 charts, depth 26/27) and a malformed stream (non-uniform depth, no categories, mixed label types). non-trivial = n in 1..16384 for column references; otherwise the (last) data has >= 2 series and >= 2 points, or >= 2 category levels and a point" % (
+            "" if tier == "quick" else ", 1400", 120 if tier == "quick" else 1000, "every 3rd of 95" if tier == "quick" else "all 95"),
         trusted_base=TB, assumptions=ASSUME,
         extra={"correspondence_diffs": stats["diffs"], "diffs_attributed_to_oracle_failures": stats["attributed_diffs"],
                "oracle_failures_by_signature": stats["oracle_failures"], "reopened_packages": stats.get("reopened", 0), "exhaustive": False},
@@ -1091,14 +1204,26 @@ def _sample(case):
 
 def replay(rec):
     case = rec["input"]
-    mo = run_model("C08", [case_fields(case)])[0]
+    tmp = tempfile.mkdtemp(prefix="c08-")
+    try:
+        mo = run_model("C08", [case_fields(case)], exe=model_exe(tmp))[0]
+    finally:
+        shutil.rmtree(tmp, ignore_errors=True)
     print("case ", _sample(case))
     if case["op"] == "col":
         io_ = impl_col(case["n"])
         print("impl ", io_)
         print("model", mo)
         return 0 if mo.split("|")[0] == io_ else 1
-    if case["op"] == "one":
+    if case["op"] == "corpus":
+        ist = impl_corpus(case)
+        m = parse_model_one(mo)
+        if not isinstance(ist, str):
+            ist["xml"] = sorted(ist["xml"], key=_ser_key)
+            if not isinstance(m["xml"], str):
+                m["xml"] = sorted(m["xml"], key=_ser_key)
+        states, msts, datas, flags = [ist], [m], [case["data"]], [bool(case.get("date1904"))]
+    elif case["op"] == "one":
         states, msts, datas, flags = [impl_one(case["data"])], [parse_model_one(mo)], [case["data"]], [False]
     else:
         states, _re = impl_hist(case)
@@ -1122,7 +1247,7 @@ def replay(rec):
             print("step %d oracle [%s] %s" % (i, classify(f, datas[i], flags[i]), f[1]))
             rc = 1
         if i < len(msts) and not isinstance(msts[i], str):
-            d = diff_xml(msts[i]["xml"], ix) or diff_sheet(msts[i]["sheet"], ish)
+            d = diff_xml(msts[i]["xml"][:len(ix)] if not isinstance(ix, str) and case["op"] == "one" else msts[i]["xml"], ix) or diff_sheet(msts[i]["sheet"], ish)
             print("step %d model agree=%s diff=%s" % (i, msts[i]["agree"], d))
             if d:
                 rc = 1
